@@ -525,14 +525,28 @@ class Facts:
         for p in sorted(glob.glob(os.path.join(facts_dir, "*.json"))):
             with open(p) as fh:
                 raws.append(fh.read())
-        # fn-rename tolerance (vlib/renames.py): map renamed fns back to the names the rules were written against
+        # types that moved to another module (vlib/adt_renames.py): their paths - and with them the def paths of their methods - are mapped back
         self.renamed = []
         try:
+            from . import adt_renames as _ar
+            pmap, pnotes = _ar.type_moves([json.loads(t) for t in raws])
+            if pmap:
+                raws = [_ar.apply_paths(t, pmap) for t in raws]
+        except Exception as e:
+            pnotes = ["type-move tolerance disabled: %s" % e]
+        # fn-rename tolerance (vlib/renames.py): map renamed fns back to the names the rules were written against
+        self.moved_into = {}
+        try:
             from . import renames
-            mapping, notes = renames.compute_map([json.loads(t) for t in raws])
+            units_ = [json.loads(t) for t in raws]
+            mapping, notes = renames.compute_map(units_)
+            self.moved_into = renames.former_callers(units_, mapping)
             if mapping:
                 raws = [renames.apply(t, mapping) for t in raws]
                 self.renamed = notes
+            self.renamed = list(pnotes) + list(self.renamed)
+            for g_, ms_ in sorted(self.moved_into.items()):
+                self.renamed = list(self.renamed) + ["recorded fn(s) %s are gone; constructs in their former caller `%s` are also looked up under their keys" % (", ".join("`%s`" % last2(m) for m in ms_), last2(g_))]
         except Exception as e:      # never let the tolerance layer break a check
             self.renamed = ["rename tolerance disabled: %s" % e]
         # field / variant rename tolerance (vlib/adt_renames.py)
